@@ -194,6 +194,34 @@ static void stateLaws(vf::Src &s, vf::Ctx &c)
         VCHECK(c, sp->equalStates(a, b) && serialImage(sp, b) == img, "C09/reals-roundtrip/" + famKey(d), "%s: copyFromReals(copyToReals(s)) = %s, s = %s (%zu reals)",
                d.name().c_str(), show(d, b).c_str(), show(d, a).c_str(), reals.size());
         c.count(reals.empty() ? "reals:none-exposed(vacuous)" : "reals:exposed");
+        // the index-based interface to the same values: getValueAddressAtIndex(k) is documented to enumerate the values in the order of
+        // getValueLocations() / copyToReals(), ends with nullptr, and is what ScopedState::reals(), operator[] and operator=(vector) use
+        {
+            for (size_t k = 0; k < reals.size(); ++k)
+            {
+                const double *pv = sp->getValueAddressAtIndex(a, (unsigned)k);
+                VCHECK(c, pv != nullptr, "C09/value-index/" + famKey(d), "%s: getValueAddressAtIndex(%zu) is null although the state exposes %zu reals", d.name().c_str(), k, reals.size());
+                VCHECK(c, std::memcmp(pv, &reals[k], sizeof(double)) == 0, "C09/value-index/" + famKey(d), "%s: getValueAddressAtIndex(%zu) yields %.17g, copyToReals()[%zu] = %.17g",
+                       d.name().c_str(), k, *pv, k, reals[k]);
+            }
+            VCHECK(c, sp->getValueAddressAtIndex(a, (unsigned)reals.size()) == nullptr, "C09/value-index/" + famKey(d), "%s: getValueAddressAtIndex(%zu) is not null past the %zu exposed reals",
+                   d.name().c_str(), reals.size(), reals.size());
+            ob::ScopedState<> ss(sp);
+            sp->copyState(ss.get(), a);
+            std::vector<double> viaScoped = ss.reals();
+            VCHECK(c, viaScoped.size() == reals.size() && (reals.empty() || std::memcmp(viaScoped.data(), reals.data(), reals.size() * sizeof(double)) == 0),
+                   "C09/scoped-reals/" + famKey(d), "%s: ScopedState::reals() gives %zu values, copyToReals() %zu (or they differ)", d.name().c_str(), viaScoped.size(), reals.size());
+            if (!reals.empty())
+            {
+                ob::ScopedState<> tt(sp);
+                sp->copyState(tt.get(), b);  // b == a at this point (also in the parts that expose no reals)
+                for (size_t k = 0; k < reals.size(); ++k)
+                    tt[(unsigned)k] = 0.125;
+                tt = viaScoped;  // operator=(const std::vector<double>&)
+                VCHECK(c, serialImage(sp, tt.get()) == img, "C09/scoped-reals/" + famKey(d), "%s: assigning reals() back through ScopedState::operator=(vector) gives %s, expected %s",
+                       d.name().c_str(), show(d, tt.get()).c_str(), show(d, a).c_str());
+            }
+        }
     }
     int md = 0;
     std::function<void(const Desc &)> rec = [&](const Desc &q)
